@@ -288,7 +288,7 @@ func init() {
 			}
 		}
 		// hostile names; From-Root additionally gets names Markdown cannot spell (empty, multi-line)
-		rootOnly := []string{"", "a\nb"}
+		rootOnly := []string{"", "a\nb", " a\nb", "\na", "\ta\nb", "\n", "a\r\nb ", " \n"}
 		all := append(append([]string{}, c04Hostile...), rootOnly...)
 		for n := 1; n <= maxH && !c.Expired(); n++ {
 			enum.DepthSeqs(n, func(d []int) {
